@@ -27,12 +27,16 @@ from vf import common, runner
 from vf.gen import gen_c06
 
 PID = 'C06'
-OPTS = ['-Dname=v', '-Dlvl=y', '-Dspx:sval=cmd']
+OPTS0 = ['-Dname=v', '-Dlvl=y', '-Dspx:sval=cmd']
 
 
 def text_files(b: str) -> T.Dict[str, bytes]:
-    out: T.Dict[str, bytes] = {}
-    pats = ['build.ninja', 'meson-info/*.json', 'config.h', 'tmpl.out', 'meson-private/*.pc', 'meson-uninstalled/*.pc', 'depmf.json']
+    # everything textual outside meson-private/meson-logs (cmake package files, depmf.json, unity sources, command outputs ...)
+    out: T.Dict[str, bytes] = corpus_text_files(b)
+    pats = ['build.ninja', 'meson-info/*.json', 'config.h', 'tmpl.out', 'meson-private/*.pc', 'meson-uninstalled/*.pc', 'depmf.json',
+            'meson-private/*.cmake']
+    # names of the wrapped-command pickles are content digests: the set of names is generated text too (build.ninja refers to them)
+    out['<meson_exe pickle names>'] = '\n'.join(sorted(os.path.basename(p) for p in glob.glob(os.path.join(b, 'meson-private', 'meson_exe_*')))).encode()
     for pat in pats:
         for p in sorted(glob.glob(os.path.join(b, pat))):
             try:
@@ -217,6 +221,8 @@ def run_project(job: T.Tuple[int, str, str, T.List[int], int]) -> dict:
     def problem(mech: str, **kw: T.Any) -> None:
         res['problems'].append({'mechanism': mech, 'project': pseed, **kw})
 
+    pc_a, pc_b = '-Dpkg_config_path=' + os.path.join(src, 'pcA'), '-Dpkg_config_path=' + os.path.join(src, 'pcB')
+    OPTS = OPTS0 + [pc_b]
     fresh()
     r0 = runner.meson(['setup', b, src] + OPTS, cwd=src, monitors=[rid_monitor])
     if r0.rc != 0:
@@ -242,7 +248,11 @@ def run_project(job: T.Tuple[int, str, str, T.List[int], int]) -> dict:
     # ---- no-change reconfigure (mtime / inode) on the reference directory --------------------
     rid = sorted({x['rid'] for x in r0.records if 'rid' in x})
     res['rid_files'] = len(rid)
-    watched = sorted(set(rid) | {os.path.join(b, 'build.ninja')})
+    # outputs that go through replace_if_different on the unchanged tree, named independently of what the code under test
+    # reports (a writer that stops using replace_if_different must not drop out of the watched set)
+    static = [p for pat in ('config.h', 'tmpl.out', '*.cmake', 'meson-private/*.cmake', '*.p/*-unity*.c', 'subprojects/*/*.p/*-unity*.c') for p in glob.glob(os.path.join(b, pat))]
+    res['static_watched'] = len(static)
+    watched = sorted(set(rid) | set(static) | {os.path.join(b, 'build.ninja')})
     before = {}
     for p in watched:
         try:
@@ -311,7 +321,7 @@ def run_project(job: T.Tuple[int, str, str, T.List[int], int]) -> dict:
 
     # ---- histories ending in the same options ---------------------------------------------------------
     hists = [
-        ('other-options-then-back', [['setup', b, src, '-Dname=other', '-Dlvl=x', '-Dspx:sval=zzz', '-Dfeat=false'],
+        ('other-options-then-back', [['setup', b, src, '-Dname=other', '-Dlvl=x', '-Dspx:sval=zzz', '-Dfeat=false', pc_b],
                                      ['setup', '--reconfigure', b, src, '-Dname=v', '-Dlvl=y', '-Dspx:sval=cmd', '-Dfeat=true']]),
         ('configure-there-and-back', [['setup', b, src] + OPTS, ['configure', b, '-Dlvl=z', '-Dname=w'],
                                       ['configure', b, '-Dlvl=y', '-Dname=v'], ['setup', '--reconfigure', b, src]]),
@@ -320,12 +330,15 @@ def run_project(job: T.Tuple[int, str, str, T.List[int], int]) -> dict:
         ('subproject-first-reached-by-reconfigure', [['setup', b, src] + OPTS + ['-Dwith_spy=false'],
                                                      ['setup', '--reconfigure', b, src, '-Dwith_spy=true']]),
         # the option file grows between two configurations: an option is inserted BEFORE existing ones
-        ('option-inserted-then-reconfigure', [['@old-options'], ['setup', b, src, '-Dlvl=y', '-Dspx:sval=cmd'], ['@new-options'],
+        ('option-inserted-then-reconfigure', [['@old-options'], ['setup', b, src, '-Dlvl=y', '-Dspx:sval=cmd', pc_b], ['@new-options'],
                                               ['setup', '--reconfigure', b, src], ['configure', b, '-Dname=v'],
                                               ['setup', '--reconfigure', b, src]]),
+        # the dependency search path changes between two configurations: found dependencies are cached in coredata.dat
+        ('pkg-config-path-changed', [['setup', b, src] + OPTS0 + [pc_a], ['setup', '--reconfigure', b, src, pc_b]]),
+        ('pkg-config-path-changed-by-configure', [['setup', b, src] + OPTS0 + [pc_a], ['configure', b, pc_b], ['setup', '--reconfigure', b, src]]),
     ]
     if tier == 'quick':
-        hists = [hists[rng.randrange(3)], hists[3], hists[4]]
+        hists = [hists[rng.randrange(3)], hists[3], hists[4], hists[5 + rng.randrange(2)]]
     for name, cmds in hists:
         fresh()
         ok = True
